@@ -20,6 +20,10 @@ def num(v, sty="d"):
     x hex of |v| with sign."""
     if sty == "h":
         return "0x%x" % (v & 0xFFFFFFFF)
+    if sty == "H":
+        return "0X%X" % (v & 0xFFFFFFFF)
+    if sty == "z":          # zero-padded decimal (still decimal in NASK: 010 is ten)
+        return ("-0%d" % -v) if v < 0 else ("0%d" % v)
     if sty == "h4":
         return "0x%04x" % (v & 0xFFFFFFFF)
     if sty == "x":
